@@ -8,6 +8,7 @@ package ch
 //@ import net net
 
 //@ valid (c *Client): c != nil ==> c.conn != nil && c.lg != nil
+//@ global ErrClosed: ErrClosed != nil
 
 // ---------------------------------------------------------------------------
 // C04 / C10: closing, flushing a private buffer, cancelling
